@@ -10,6 +10,7 @@ pub mod c11;
 pub mod c14;
 pub mod c15;
 pub mod c16;
+pub mod c20;
 
 pub fn run(prop: &str, ctx: &mut Ctx) -> bool {
     match prop {
@@ -22,6 +23,7 @@ pub fn run(prop: &str, ctx: &mut Ctx) -> bool {
         "C14" => c14::run(ctx),
         "C15" => c15::run(ctx),
         "C16" => c16::run(ctx),
+        "C20" => c20::run(ctx),
         _ => return false,
     }
     true
@@ -40,6 +42,7 @@ pub fn replay(prop: &str, ctx: &mut Ctx, file: &J) {
         "C14" => c14::replay(ctx, &case),
         "C15" => c15::replay(ctx, &case),
         "C16" => c16::replay(ctx, &case),
+        "C20" => c20::replay(ctx, &case),
         _ => {}
     }
 }
